@@ -16,7 +16,7 @@ func init() {
 	register(&propDef{
 		ID:  "C07",
 		Run: runC07,
-		Explain: "Decided (redundant-state clauses): (a) paired updates: in every sampling method that takes the increment as a parameter, all acyclic paths perform the same set of `x += increment` accumulations (cell, row total, column total / count and grand total / count and sub-count) - no path that skips one, assigns instead of accumulating, or seeds an accumulated field with a non-zero constant; (b) the sub-key counter keeps its parallel structures aligned: the name->index table is rebuilt from the ordered key slice after an insert, every existing item gets a zero inserted at the same index, new items are created with len(subKeys) cells; (c) every Sample method counts a non-integer increment as a parse error and does not sample it, and samples exactly once otherwise; (d) the numerical aggregator updates min and max independently on every sample and counts the sample before it is used as divisor; (e) all index/slice expressions of pkg/aggregation are discharged. " +
+		Explain: "Decided (redundant-state clauses): (a) paired updates: in every sampling method that takes the increment as a parameter, all acyclic paths perform the same set of `x += increment` accumulations (cell, row total, column total / count and grand total / count and sub-count) - no path that skips one, assigns instead of accumulating, or seeds an accumulated field with a non-zero constant; (b) the sub-key counter keeps its parallel structures aligned: the name->index table is rebuilt from the ordered key slice after an insert, every existing item gets a zero inserted at the same index, new items are created with len(subKeys) cells; (c) every Sample method counts a non-integer increment as a parse error and does not sample it, and samples exactly once otherwise; (d) the numerical aggregator updates min and max independently on every sample and counts the sample before it is used as divisor; (e) all index/slice expressions of pkg/aggregation are discharged. (f) a freshly made accumulator row is filled with the columns' initial values before any column expression can read it. " +
 			"NOT decided (value level): that counts, totals, mean, variance, median, mode and quantiles equal the fold of the sample history; order independence; Trim semantics.",
 		Assume: []string{"reviewed entries (checker/c07.go, c08.go, c14.go) are correct"},
 	})
